@@ -223,6 +223,8 @@ structure GoResult where
   st : Engine
   out : List String
   err : Bool
+  /-- the duration handed to `context.WithTimeout` (`none`: no deadline installed) -/
+  deadline : Option Int := none
 deriving Inhabited
 
 /-- `Engine.analyze`; `k` = index of the command in the stream (handed to the search oracle). -/
@@ -245,8 +247,8 @@ def analyze (env : Env) (k : Nat) (st : Engine) (words : List String) : R GoResu
       if mmSize ≠ (pos.cfg.size : Int) then .error (.panic "Analyze: wrong size") else
       let r := env.search k pos budget
       match r.pv with
-      | [] => .ok { st := st, out := [], err := true }               -- [fix C13-tei-go] was: pv[0] panics
-      | m :: _ => .ok { st := st, out := [infoLine env r, "bestmove " ++ env.fmtMove m], err := false }
+      | [] => .ok { st := st, out := [], err := true, deadline := budget }   -- [fix C13-tei-go] was: pv[0] panics
+      | m :: _ => .ok { st := st, out := [infoLine env r, "bestmove " ++ env.fmtMove m], err := false, deadline := budget }
 
 /-- how `Run` ended -/
 inductive Exit where
@@ -260,6 +262,8 @@ deriving Repr, DecidableEq, Inhabited
 structure Rec where
   out : List String
   st : Engine
+  /-- the deadline `analyze` installed while this command ran (`none`: none) -/
+  deadline : Option Int := none
 deriving Inhabited
 
 inductive Step where
@@ -292,7 +296,7 @@ def step (env : Env) (k : Nat) (st : Engine) (words : List String) : Step :=
       | .error (.illegal _) => .stop .error { out := [], st := { st with pos := none } }
     else if w0 = "go" then
       match analyze env k st words with
-      | .ok r => .cont { out := r.out, st := r.st }
+      | .ok r => .cont { out := r.out, st := r.st, deadline := r.deadline }
       | .error (.panic s) => .stop (.panic s) { out := [], st := st }
       | .error (.hang s) => .stop (.panic ("hang " ++ s)) { out := [], st := st }
       | .error (.illegal _) => .cont { out := [], st := st }
